@@ -178,6 +178,17 @@ func c13ProbePoint(c *fw.Ctx, e *Env, g *Gen) {
 				if r.Chance(25) {
 					add("StCancel", x, &streamtypes.MsgCancelStream{Receiver: st.Receiver, Sender: xs}, isSender)
 				}
+				// the same stream named the other way round (x as "sender" of a stream towards the real
+				// sender, x as "receiver" of a stream from the real receiver): entitled only if a stream
+				// really exists in THAT direction
+				revSender := exists(xs, st.Sender)
+				revRecv := exists(st.Receiver, xs)
+				add("StRateReversed", x, &streamtypes.MsgUpdateFlowRate{Receiver: st.Sender, Sender: xs, FlowRate: st.Stream.FlowRate + 2}, revSender)
+				add("StTopUpReversed", x, &streamtypes.MsgTopUpDeposit{Receiver: st.Sender, Sender: xs, Deposit: sdk.NewCoin(st.Stream.Deposit.Denom, sdk.NewInt(st.Stream.FlowRate).MulRaw(2))}, revSender)
+				add("StClaimReversed", x, &streamtypes.MsgClaimStream{Receiver: xs, Sender: st.Receiver}, revRecv)
+				if r.Chance(25) {
+					add("StCancelReversed", x, &streamtypes.MsgCancelStream{Receiver: st.Sender, Sender: xs}, revSender)
+				}
 			}
 		}
 		// parameter updates: authority named = the signer itself, or the gov module account
